@@ -23,6 +23,7 @@ from typing import Any, Dict, List, Optional, Set, Tuple
 
 from ..core import guards as G, linear as L
 from ..core.fde import Obj, Raised, Undecided
+from ..core.classworld import ClassWorld
 from ..core.findings import Report
 from ..core.loader import AnalysisError, Module, Repo, dotted, norm, qualname, short, walk_no_nested
 from .serworld import SER, SerWorld, same_value
@@ -483,7 +484,8 @@ def _eval_job(args) -> Tuple[str, Optional[str], int]:
             # recursion depth: a large all-zero border string must not exhaust the interpreter stack
         elif kind == "compass":
             w = SerWorld(repo, "compass")
-            bodies = ["", "g", "1", "1.2", "1.23", "-1", "-1f.23", "z1.23", "....", "1.23k", "_", "٣...", "--1f...", "z1.23z1.23", "{", "-ff-10.0", "zz"]
+            bodies = ["", "g", "1", "1.2", "1.23", "-1", "-1f.23", "z1.23", "....", "1.23k", "_", "٣...", "--1f...", "z1.23z1.23", "{", "-ff-10.0", "zz",
+                      "--f...", "-+f...", "- f...", "-_f...", "-0x...", ".-f_..", "+1..", "A...", "-A1..."]
             for hw in ("4/5", "0/5", "5/0", "x/y", "-1/3", "+4/5", "1/1"):
                 for b in bodies:
                     n += 1
@@ -562,7 +564,52 @@ class _Hold:
 PROOF_RULES = ("EXC-1", "EXC-2", "EXC-3", "EXC-5")
 
 
+VALIDATOR_CLASS = {"_is_hex": "0123456789abcdef", "_is_alnum_lower": "0123456789abcdefghijklmnopqrstuvwxyz"}
+
+
+def check_validators(repo: Repo, rep: Report) -> None:
+    """EXC-6 trusts a guard `_is_hex(piece)` / `_is_alnum_lower(piece)` by name; here every function of that name on the decode
+    path is evaluated on all strings of length <= 2 (and some of length 3) over one representative per character class and must
+    accept exactly the strings made of its class (the empty string included, as `all()` does)"""
+    rep.rule("EXC-6V", "the character-class validators that EXC-6 relies on accept exactly the strings over their class (no sign, blank, underscore, prefix, upper case, non-ASCII digit)")
+    alpha = ["0", "9", "a", "f", "g", "z", "-", "+", "_", " ", "x", "A", "F", "٣", "."]
+    words = [""] + alpha + [a + b for a in alpha for b in alpha] + ["0x1", "-1f", "+0a", "1_0", " 1", "1 ", "0b1", "fff", "00g"]
+    n = 0
+    for m in [repo.mod(SER)] + list(repo.iter("cspuz/puzzle/")):
+        for name, cls in VALIDATOR_CLASS.items():
+            if name not in m.funcs:
+                continue
+            n += 1
+            rep.saw(m.rel, name)
+            cw = ClassWorld([m])
+            bad = None
+            try:
+                for wd in words:
+                    cw.ev.steps = 0
+                    got = cw.call(name, wd)
+                    want = all(ch in cls for ch in wd)
+                    if wd == "":
+                        continue  # accepting or rejecting the empty piece is the caller's business
+                    if got is not want:
+                        bad = (wd, got, want)
+                        break
+            except Undecided as ex:
+                rep.undecide("EXC-6V", f"{m.rel}::{name}: {ex}")
+                continue
+            except Raised as ex:
+                bad = (wd, f"raises {ex.what}", want)
+            if bad:
+                rep.finding("EXC-6V", m.rel, name, f"{name} character class",
+                            f"{name}({bad[0]!r}) gives {bad[1]!r}, expected {bad[2]!r}: the guard lets through text that int() then reads as a signed / "
+                            "prefixed / non-canonical number", m.funcs[name].lineno)
+            else:
+                rep.ok("EXC-6V", f"{m.rel}::{name} accepts exactly the strings over its class ({len(words)} probe strings)", points=len(words))
+    if n < 2:
+        raise AnalysisError("EXC-6V: the validators EXC-6 relies on were not found")
+
+
 def run(repo: Repo, rep: Report) -> None:
+    check_validators(repo, rep)
     hold = _Hold(rep)
     static_rules(repo, hold)  # type: ignore[arg-type]
     before = len(rep.findings)
